@@ -95,6 +95,10 @@ func (g *gen) config() (string, string, uint, []keyCap, fault) {
 	default:
 		H = uint(1 + r.Intn(14))
 	}
+	if r.Intn(6) == 0 {
+		// many handlers: v1's feedback limit (HandlersQuantity / 10) exceeds one only from 20 on
+		H = uint(20 + r.Intn(30))
+	}
 	keys := make([]keyCap, len(ps))
 	for i, p := range ps {
 		c := 1 + r.Intn(6)
@@ -273,6 +277,25 @@ func (g *gen) script() {
 		stopAt = r.Intn(rounds)
 	}
 	nextChan := uint(100000)
+	// C17: when AddInput(ch, p) has taken effect, the priorities served are the previous ones
+	// plus p - whatever the history of p (never registered, registered, removed, its previous
+	// channel closed and drained)
+	addInput := func(p uint, c uint, capacity int) {
+		_, _, _, was, _ := s.stp.Snapshot()
+		g.do(fmt.Sprintf("top add %d %d %d", p, c, capacity))
+		_, _, _, now, _ := s.stp.Snapshot()
+		want := map[uint]bool{p: true}
+		for _, q := range was {
+			want[q] = true
+		}
+		same := len(now) == len(want)
+		for _, q := range now {
+			same = same && want[q]
+		}
+		if !same && !s.errSeen {
+			s.fail("C17 after AddInput(ch, %d) the priorities served are %v, expected %v plus %d: elements of the added channel are never read", p, now, was, p)
+		}
+	}
 
 	for round := 0; round < rounds; round++ {
 		last := round == rounds-1
@@ -318,7 +341,7 @@ func (g *gen) script() {
 				g.readd = g.readd[1:]
 				c := nextChan
 				nextChan++
-				g.do(fmt.Sprintf("top add %d %d %d", p, c, 5))
+				addInput(p, c, 5)
 				g.boost = 3
 			case g.k.dynamic && r.Intn(3) == 0:
 				if r.Intn(2) == 0 {
@@ -340,7 +363,7 @@ func (g *gen) script() {
 							p = s.chanPri[c]
 						}
 					}
-					g.do(fmt.Sprintf("top add %d %d %d", p, c, 1+r.Intn(5)))
+					addInput(p, c, 1+r.Intn(5))
 				} else if l := g.liveChans(); len(l) > 0 {
 					p := s.chanPri[pick(r, l)]
 					if r.Intn(4) == 0 {
@@ -405,7 +428,26 @@ func (g *gen) script() {
 			}
 		} else {
 			ok := false
-			for {
+			// the real waitCalcTactic, with some (not all) releases waiting to be read: under
+			// saturation one consumed release frees a handler that is refilled at once (C05) -
+			// the wait never needs more releases than it takes to make one handler vacant
+			useWct := g.k.saturated && flt.kind == "none" && !s.zeroShare() && len(s.pending) >= 1 && r.Intn(2) == 0
+			if useWct {
+				busy, npend := totalInflight(s)+len(s.pending), len(s.pending)
+				rep := g.do("wct")
+				switch {
+				case rep[:4] == "hang":
+					s.fail("C05 ver=%s: %d of %d handlers were occupied, %d release(s) were issued and every input has data, but waitCalcTactic does not return: the released handlers are not refilled until more releases arrive", s.ver, busy, s.H, npend)
+					return
+				case rep[:2] == "ok":
+					ok = true
+				case rep[:3] == "err":
+					failed = true
+				default:
+					return
+				}
+			}
+			for !useWct {
 				rep := g.do("calc")
 				if rep[:4] == "proc" {
 					ok = true
